@@ -13,6 +13,7 @@ Digit == 0..9
 
 \* a property clause: the empty set when it holds, its tag when it does not
 Chk(cond, tag) == IF cond THEN {} ELSE {tag}
+Idx(s) == 1..Len(s)
 
 \* three-way comparison of two sequences of naturals, element by element,
 \* a strict prefix being lower (used for digits of equal length and for bytes)
